@@ -262,7 +262,7 @@ def run(prog):
         if "closure" in spec:
             kids = prog.children(fn)
             if len(kids) != 1:
-                errs.append("expected exactly one closure, found %d" % len(kids))
+                errs.append("%sexpected exactly one closure, found %d" % ("?" if not kids else "", len(kids)))
             else:
                 e = match(spec["closure"], norm_term(kids[0].terms.ret))
                 if e:
@@ -421,14 +421,14 @@ def from_c_parts_rule(prog):
     errs = []
     frp = [cs for cs in te.calls if cs.callee.name == "from_raw_parts"]
     if len(frp) != 1:
-        errs.append("expected one from_raw_parts call")
+        errs.append("%sexpected one from_raw_parts call" % ("?" if not frp else ""))
     else:
         ln = frp[0].args[1]
         if not (any(bounded_by_max(m) for m in _min_bound(ln)) or bounded_by_max(ln)):
             errs.append("slice length not bounded by MAX_COEFFS: %s" % show(ln))
     stores = [s for s in te.stores if "coefficients" in show(s[1])]
     if not stores:
-        errs.append("no coefficient store found")
+        errs.append("?no coefficient store found")
     for (bb, pt, val, line) in stores:
         idx = pt[2] if pt[0] == "index" else None
         ok = False
